@@ -20,6 +20,12 @@ def pools(work, tier, seed, n=None):
     single = [mc for mc in mcs if len(mc["layers"]) == 1]
     deeper = [mc for mc in mcs if len(mc["layers"]) > 1]
     out["circuit"] = [{"cls": "circuit", "src": mc} for mc in single + rnd.sample(deeper, min(n, len(deeper)))]
+    # a mixed scalar with a complex value (not a physical weight, so it is kept out of the CQ menu that C12 measures;
+    # as a box of the circuit class it must obey the dagger laws like any other)
+    from harness.checks.c13 import _mg
+    cms = _mg("mscalar", re=0, im=1, s=1)
+    out["circuit"] += [{"cls": "circuit", "src": {"ty": ["q"], "layers": [{"g": cms, "off": 0}]}},
+                       {"cls": "circuit", "src": {"ty": ["q"], "layers": [{"g": _mg("H"), "off": 0}, {"g": cms, "off": 1}]}}]
     zx = core.run_model("MC_ZX", work, spec="ZSpec", constants={"MaxQ": 0, "MaxLayers": 0, "Phases": "<- PhasesQ", "Halving": "TRUE",
                                                                  "ZMaxW": 2, "ZMaxBoxes": 2}, dump=True, tag="_cls")
     zds = [st["zd"] for st in tlaval.read_dump(zx["dump"]) if st["zd"]["layers"]]
